@@ -245,6 +245,100 @@ fn c05_t_spsc_recv_batch_vs_send() {
   std::mem::forget(tx);
 }
 
+/// C04 straggler window for the timed receive: send(v) + drop of the last sender lands anywhere inside
+/// recv_timeout: the result is never Disconnected while v is undelivered.
+#[kani::proof]
+#[kani::unwind(4)]
+fn c04_t_spsc_recv_timeout_vs_send_then_drop() {
+  setup!(1, 0, tx, rx);
+  sched::install(a_send7_then_drop, 1, 1);
+  let r = rx.as_mut().unwrap().recv_timeout(Duration::from_nanos(5));
+  sched::run_pending();
+  sched::uninstall();
+  match r {
+    Ok(v) => assert!(v == 7, "C01: received a value never sent"),
+    Err(RecvErrorTimeout::Timeout) => {
+      assert!(rx.as_ref().unwrap().try_recv() == Ok(7), "C04: sent value lost after the sender dropped");
+    }
+    Err(RecvErrorTimeout::Disconnected) => {
+      assert!(false, "C04: Disconnected reported before the buffered value was drained");
+    }
+  }
+  assert!(rx.as_ref().unwrap().try_recv() == Err(TryRecvError::Disconnected), "C04: no Disconnected after the drain");
+  kani::cover!(r.is_ok(), "timed receive got the straggler");
+  kani::cover!(r.is_err(), "timed out before the send landed");
+  std::mem::forget(rx);
+  std::mem::forget(tx);
+}
+
+/// C01: the receiver goes away at any synchronisation point inside a batch send: the error accounts for
+/// every value (sent + unsent == input, unsent is the input suffix), nothing is silently dropped.
+#[kani::proof]
+#[kani::unwind(5)]
+fn c01_q_spsc_try_send_batch_vs_receiver_drop() {
+  setup!(2, 0, tx, rx);
+  sched::install(a_drop_rx, 1, 1);
+  let blocking = false;
+  let (ok, sent, u0, u1, ulen) = if blocking {
+    match tx.as_ref().unwrap().send_batch(vec![10, 11]) {
+      Ok(n) => (true, n, 0, 0, 0),
+      Err(e) => (false, e.sent, if e.unsent.len() > 0 { e.unsent[0] } else { 0 }, if e.unsent.len() > 1 { e.unsent[1] } else { 0 }, e.unsent.len()),
+    }
+  } else {
+    match tx.as_ref().unwrap().try_send_batch(vec![10, 11]) {
+      Ok(n) => (true, n, 0, 0, 0),
+      Err(e) => (false, e.sent, if e.unsent.len() > 0 { e.unsent[0] } else { 0 }, if e.unsent.len() > 1 { e.unsent[1] } else { 0 }, e.unsent.len()),
+    }
+  };
+  assert!(sent + ulen == 2, "C01: batch error lost a value: sent + unsent != input length");
+  if ok {
+    assert!(sent == 2, "C01: batch reported Ok with a wrong count");
+  }
+  if ulen == 2 {
+    assert!(u0 == 10 && u1 == 11, "C01: unsent is not the input suffix in order");
+  }
+  if ulen == 1 {
+    assert!(u0 == 11, "C01: unsent is not the input suffix in order");
+  }
+  kani::cover!(!ok && sent == 0, "receiver went away before the first write");
+  std::mem::forget(rx);
+  std::mem::forget(tx);
+}
+
+/// C01: the receiver goes away at any synchronisation point inside a batch send: the error accounts for
+/// every value (sent + unsent == input, unsent is the input suffix), nothing is silently dropped.
+#[kani::proof]
+#[kani::unwind(5)]
+fn c01_t_spsc_send_batch_vs_receiver_close() {
+  setup!(2, 0, tx, rx);
+  sched::install(a_close_rx, 1, 1);
+  let blocking = true;
+  let (ok, sent, u0, u1, ulen) = if blocking {
+    match tx.as_ref().unwrap().send_batch(vec![10, 11]) {
+      Ok(n) => (true, n, 0, 0, 0),
+      Err(e) => (false, e.sent, if e.unsent.len() > 0 { e.unsent[0] } else { 0 }, if e.unsent.len() > 1 { e.unsent[1] } else { 0 }, e.unsent.len()),
+    }
+  } else {
+    match tx.as_ref().unwrap().try_send_batch(vec![10, 11]) {
+      Ok(n) => (true, n, 0, 0, 0),
+      Err(e) => (false, e.sent, if e.unsent.len() > 0 { e.unsent[0] } else { 0 }, if e.unsent.len() > 1 { e.unsent[1] } else { 0 }, e.unsent.len()),
+    }
+  };
+  assert!(sent + ulen == 2, "C01: batch error lost a value: sent + unsent != input length");
+  if ok {
+    assert!(sent == 2, "C01: batch reported Ok with a wrong count");
+  }
+  if ulen == 2 {
+    assert!(u0 == 10 && u1 == 11, "C01: unsent is not the input suffix in order");
+  }
+  if ulen == 1 {
+    assert!(u0 == 11, "C01: unsent is not the input suffix in order");
+  }
+  kani::cover!(!ok && sent == 0, "receiver went away before the first write");
+  std::mem::forget(rx);
+  std::mem::forget(tx);
+}
+
 /// playback / driver self-test probe (never part of a property)
 #[kani::proof]
 #[kani::unwind(5)]
